@@ -88,6 +88,16 @@ Theorem C03_custom_filter_exact :
 Proof. exact find_preds_custom_exact. Qed.
 Print Assumptions C03_custom_filter_exact.
 
+(* The call sequence (an intermediate observable compared with the implementation on every
+   case): the logging loop returns the same roots, and opts.FindPredecessors is called at most
+   once per node. *)
+Theorem C03_calls_once :
+  forall (fuel : nat) (s : source) (fs : list filter) (limit : Z) (node : desc) (roots : list desc) (calls : list nat),
+    find_roots_log fuel s fs limit node = Some (roots, calls) ->
+    find_roots fuel s fs limit node = Some roots /\ NoDup calls.
+Proof. exact find_roots_log_spec. Qed.
+Print Assumptions C03_calls_once.
+
 (* Failing source operations (Predecessors / Referrers / the Fetch of a missing field), any
    position k of the armed fault: when findRoots nevertheless succeeds, its result is the
    fault-free one -- no error is swallowed into a partial predecessor list or root set; so
